@@ -265,6 +265,10 @@ fn scan_sites(repo: &str) -> SiteScan {
         let lines = production_lines(&src);
         let mut counts: BTreeMap<String, Vec<usize>> = BTreeMap::new();
         for (ln, l) in &lines {
+            // `use x::Error as _;` imports a trait anonymously
+            if l.starts_with("use") || l.starts_with("pubuse") {
+                continue;
+            }
             if has_idiom(l) {
                 counts.entry(l.clone()).or_default().push(*ln);
             }
@@ -430,7 +434,7 @@ fn gen_cases(seed: u64, n: usize, tier: &str) -> Vec<Case> {
         push("compbbox", x, 0.0, 0, "boundary", &mut v);
     }
     // top side bearing = vertical origin - yMax
-    for (ymax, origin) in [(-31967.0, 800.0), (-31968.0, 800.0), (-32000.0, 800.0), (-32768.0, 0.0), (-32768.0, -1.0), (32767.0, -1.0), (32767.0, -2.0), (32767.0, -32768.0), (100.0, 800.0)] {
+    for (ymax, origin) in [(-31967.0, 800.0), (-31968.0, 800.0), (-32000.0, 800.0), (-32767.0, 1.0), (-32767.0, 0.0), (32767.0, -1.0), (32767.0, -2.0), (32767.0, -32768.0), (100.0, 800.0)] {
         push("tsb", ymax, origin, 0, "boundary", &mut v);
     }
     // variation deltas: both masters fit, the delta is at / beyond the limit
@@ -577,7 +581,10 @@ fn coord_contours(c: &Case) -> Vec<Vec<(f64, f64)>> {
             let (lo, hi) = (c.a, c.b);
             if c.n == 0 { vec![vec![(lo, 0.0), (hi, 0.0), (hi, 100.0), (lo, 100.0)]] } else { vec![vec![(0.0, lo), (100.0, lo), (100.0, hi), (0.0, hi)]] }
         }
-        "tsb" => vec![vec![(0.0, c.a - 100.0), (100.0, c.a - 100.0), (100.0, c.a), (0.0, c.a)]],
+        "tsb" => {
+            let lo = (c.a - 100.0).max(-32768.0);
+            vec![vec![(0.0, lo), (100.0, lo), (100.0, c.a), (0.0, c.a)]]
+        }
         _ => unreachable!(),
     }
 }
@@ -1484,7 +1491,7 @@ fn expect(c: &Case) -> Expect {
         }
         "tsb" => {
             let (ymax, origin) = (otr(c.a), otr(c.b));
-            ex((fits16(origin - ymax) && fits16(origin - 800) && fits16(ymax - 100)).then(|| vec![origin - ymax]))
+            ex((fits16(origin - ymax) && fits16(origin - 800)).then(|| vec![origin - ymax]))
         }
         "hhea" => {
             let r = otr(c.a);
@@ -1722,6 +1729,7 @@ fn main() {
         // fontc builds one rayon pool per compile; several compiles run side by side here
         unsafe { std::env::set_var("RAYON_NUM_THREADS", "2") };
     }
+    unsafe { std::env::set_var("SOURCE_DATE_EPOCH", "0") };
     if std::env::var("C19_LOUD").is_err() {
         quiet_panics();
     }
